@@ -79,6 +79,25 @@ def from_generator(draw):
                 tb=draw(boards.PROBS), rb=draw(boards.PROBS), lb=draw(boards.PROBS))
 
 
+@st.composite
+def through_cli(draw):
+    """The command-line entry point, optionally after an earlier run in the same directory whose break
+    probabilities differ from this one's by less than a percent (same file name, different game)."""
+    g = draw(from_generator())
+    g["gen"][3] = draw(st.sampled_from((0.1, 0.3, 0.5, 0.9)))
+    g["entry"] = "cli"
+    if draw(st.integers(0, 2)) > 0:
+        which = draw(st.sampled_from(("tb", "rb", "lb", "all")))
+        delta = draw(st.sampled_from((0.004, 0.0005, -0.004, 0.0049)))
+        prior = {k: g[k] for k in ("tb", "rb", "lb")}
+        for k in prior:
+            if which in (k, "all"):
+                prior[k] = min(0.9995, max(0.0005, round(g[k] + delta, 6)))
+        if prior != {k: g[k] for k in ("tb", "rb", "lb")}:
+            g["prior"] = prior
+    return g
+
+
 def wide_tall(tier="quick"):
     """Shapes around typical tuning knobs (8, 12, 16, 32, 64 per row / column), from the random generator."""
     shapes = [(1, 9), (9, 1), (1, 13), (13, 1), (2, 17), (17, 2), (1, 33), (33, 1), (1, 65), (65, 1), (9, 9), (3, 12),
@@ -97,15 +116,47 @@ def phases(tier):
         return [Phase("boards<=3-tiles", enum=core(3), exhaustive=True, note="all boards with at most 3 tiles"),
                 Phase("wide-and-tall-boards", enum=lambda: wide_tall("quick")),
                 Phase("sampled-boards", strategy=lambda: sampled(5), examples=(260, 0)),
-                Phase("generator-boards", strategy=from_generator, examples=(60, 0))]
+                Phase("generator-boards", strategy=from_generator, examples=(60, 0)),
+                Phase("command-line-runs", strategy=through_cli, examples=(80, 0))]
     return [Phase("boards<=4-tiles", enum=core(4), exhaustive=True, note="all 13 448 boards with at most 4 tiles"),
             Phase("wide-and-tall-boards", enum=lambda: wide_tall("thorough")),
             Phase("sampled-boards", strategy=lambda: sampled(6), examples=(0, 5000)),
-            Phase("generator-boards", strategy=from_generator, examples=(0, 1500))]
+            Phase("generator-boards", strategy=from_generator, examples=(0, 1500)),
+            Phase("command-line-runs", strategy=through_cli, examples=(0, 1500))]
+
+
+def emitted_by_cli(board):
+    """roberta_generator.main() in a scratch directory; with board['prior'] an earlier run (other break
+    probabilities) happens first in the same directory.  The file read is the one the last run names."""
+    r = repo()
+    seed, length, width, p, maxr, fd = board["gen"]
+
+    def args(tb, rb, lb):
+        return boards.cli_args(seed=seed, width=width, length=length, rb=rb, lb=lb, tb=tb, lt=p, max_reward=maxr,
+                               force_down=fd)
+    before = {}
+    if board.get("prior"):
+        pr = board["prior"]
+        kind, payload, before = boards.run_generator_cli(args(pr["tb"], pr["rb"], pr["lb"]), clean=True)
+        if kind != "ok":
+            raise RuntimeError(f"earlier run failed: {kind} {payload!r}")
+    kind, payload, files = boards.run_generator_cli(args(board["tb"], board["rb"], board["lb"]), clean=not before)
+    if kind != "ok":
+        raise RuntimeError(f"main() ended with {kind} {payload!r}")
+    if len(files) == 1:
+        name = next(iter(files))
+    else:
+        fresh = [n for n in files if files[n] != before.get(n)]
+        if len(fresh) != 1:
+            raise RuntimeError(f"cannot tell which of {sorted(files)} the last run wrote")
+        name = fresh[0]
+    return r.conditionalrewards.read_dict_from_file(os.path.join(boards.scratch_dir(), "inputs", name))
 
 
 def emitted_games(board):
     r = repo()
+    if board.get("entry") == "cli":
+        return emitted_by_cli(board)
     if board.get("entry") != "manual":
         return boards.games_from_board(board)
     d = boards.clean_scratch()
@@ -127,8 +178,14 @@ def check_case(board):
     if "gen" in board and "moves" not in board:
         seed, length, width, p, maxr, fd = board["gen"]
         v.key = board
+        extra = {k: board[k] for k in ("entry", "prior", "gen") if k in board}
         board = dict(boards.random_board(seed, length, width, p, maxr, fd, board["tb"], board["rb"], board["lb"]))
         v.cls("from_random_generator")
+        if extra.get("entry") == "cli":
+            board.update(extra)
+            v.cls("command_line_entry_point")
+            if "prior" in extra:
+                v.cls("after_an_earlier_run_differing_below_a_percent")
     moves = board["moves"]
     L, W = len(moves), len(moves[0])
     v.nontrivial = True
